@@ -4,6 +4,7 @@ Proof: lean/Props/C04.lean.  Tie: decoded `.dods` rows of `BaseHandler` for `?co
 `open_url(url?ce)` and on the client's sequence operators."""
 import copy
 import csv
+import hashlib
 import os
 import re
 import shutil
@@ -36,7 +37,7 @@ def load():
 
 def make_app(P, backend, names, kinds, rows, tmpdir):
     if backend == "csv":
-        path = os.path.join(tmpdir, "t%d.csv" % (abs(hash((tuple(names), tuple(rows)))) % 10 ** 12))
+        path = os.path.join(tmpdir, "t%s.csv" % hashlib.md5(repr((tuple(names), tuple(rows))).encode()).hexdigest()[:16])
         if not os.path.exists(path):
             with open(path, "w", newline="") as f:
                 w = csv.writer(f, quoting=csv.QUOTE_NONNUMERIC)
